@@ -194,6 +194,20 @@ struct ExCheck : Check {
 		std::string pat = gen_pattern(r);
 		std::string rep = reps[r.below(12)];
 		std::string fl = r.chance(2, 3) ? "g" : "";
+		if (r.chance(1, 12)) {
+			// alternations in which a group is entered by an attempt that fails (at an earlier start, or in
+			// an earlier branch): in the reported match that group took no part and \N must be empty
+			static const char *alt[] = {"c|(a)b", "(a)c|b", "(a)(b)x|a", "b|(a)(c)", "(ab)c|a(b)", "x(a)|(b)"};
+			g.emit(rng + "s/" + std::string(alt[r.below(6)]) + "/[\\1|\\2]/" + fl, "", "s");
+			return;
+		}
+		if (r.chance(1, 12) && g.n() > 0 && g.cur_known) {
+			// a search address in front of a substitute that has a pattern of its own
+			std::string a = "/" + std::string(WORDS[r.below(12)]) + "/";
+			g.emit(a + "s/" + std::string(WORDS[r.below(12)]) + "/" + rep + "/" + fl, "", "s");
+			if (r.chance(1, 2)) g.emit(g.good_range() + "s//" + rep + "/", "", "s");	// and the pattern remembered afterwards
+			return;
+		}
 		if (k == 0) g.emit(rng + "s//" + rep + "/" + fl, "", "s");			// empty pattern: reuse
 		else if (k == 1) g.emit(rng + "s/" + pat, "", "s");				// pattern only: delete first match
 		else if (k == 2) g.emit(rng + "s/" + std::string(1, "abc"[r.below(3)]) + "*/" + rep + "/" + fl, "", "s");	// matches the empty string
@@ -213,6 +227,13 @@ struct ExCheck : Check {
 			// a global that fails before it starts (bad pattern) must leave no trace for the next one
 			g.emit(std::string("g/") + (r.chance(1, 2) ? "(a" : "a{") + "/d", "", "g");
 			g.emit("g/" + std::string(WORDS[r.below(12)]) + "/s/$/!/", "", "g");
+			return;
+		}
+		if (r.chance(1, 12) && g.n() > 2 && g.n() <= 60) {
+			// a nested global with a range of its own that covers lines the outer one has not visited yet
+			// (small buffers only: every inner global sweeps the whole buffer for leftover marks, O(n^2) in all)
+			std::string in = std::string(1, "abc"[r.below(3)]);
+			g.emit(g.good_range() + "g/" + std::string(1, "abc"[r.below(3)]) + "/.,+1g/" + in + "/s/$/!/", "", "g");
 			return;
 		}
 		if (r.chance(1, 10) && g.n() > 1) {
@@ -247,6 +268,14 @@ struct ExCheck : Check {
 		}
 		if (text) {
 			// one text block per execution: ask the model how many there will be
+			ExModel probe = g.m;
+			std::vector<std::string> many;
+			for (int i = 0; i < 200; i++) { many.push_back("T" + std::to_string(i)); many.push_back("."); }
+			probe.input = &many; probe.in_pos = 0;
+			probe.exec(cmd);
+			if (probe.n() > 300) { sub = "d"; cmd = head + sub; text = false; }	// (inserting globals compound too)
+		}
+		if (text) {
 			ExModel probe = g.m;
 			std::vector<std::string> many;
 			for (int i = 0; i < 200; i++) { many.push_back("T" + std::to_string(i)); many.push_back("."); }
@@ -375,6 +404,10 @@ struct ExCheck : Check {
 	{
 		if (dead) return;
 		if (after < 0) { compare_text(c, "after reading F", pid + "/read"); return; }
+		// The generator keeps buffers small with its own copy of the model, which undo steps can put out of
+		// step with the editor; a global that puts a register then multiplies the buffer. The reference model
+		// finds lines by identity in linear time, so such a plan is not judged further (and is counted).
+		if (M.n() > 1500 || c.nlines() > 1500) { dead = true; c.count("plans_abandoned_buffer_beyond_1500_lines"); K.end_run(OUT_PLAN_END, "buffer beyond 1500 lines"); }
 		const Step &s = c.plan.steps[(size_t) after];
 		if (s.op != "keys") return;
 		std::string kind = s.meta.str("k");
@@ -464,6 +497,7 @@ struct ExCheck : Check {
 		}
 		M.input = nullptr;
 		M.pending_soft = false;
+		if (M.overflow) { dead = true; c.count("plans_abandoned_buffer_beyond_1500_lines"); K.end_run(OUT_PLAN_END, "buffer beyond 1500 lines"); }
 		if (M.murky) {
 			// a register body or | list went on after a command that did nothing on line 0: where the current
 			// line is for the rest of it is not defined by the reference
